@@ -14,6 +14,7 @@ import Pdpy11.Driver.State
 import Pdpy11.Driver.Cli
 import Pdpy11.Driver.Asm
 import Pdpy11.Driver.Defs
+import Pdpy11.Driver.Layout
 namespace Pdpy11.Driver
 
 def handle (line : String) : String :=
@@ -46,6 +47,7 @@ def handle (line : String) : String :=
     | "cli" => handleCli args
     | "asm" => handleAsm args
     | "defs" => handleDefs args
+    | "layout" => handleLayout args
     | "ping" => "pong"
     | _ => "bad-op"
 
